@@ -24,7 +24,7 @@ Lemma registry_classes :
   class_of error_registry "B" (-32700) = "ParseError" /\ class_of error_registry "B" (-32600) = "InvalidRequestError"
   /\ class_of error_registry "B" (-32601) = "MethodNotFoundError" /\ class_of error_registry "B" (-32602) = "InvalidParamsError"
   /\ class_of error_registry "B" (-32603) = "InternalError" /\ class_of error_registry "B" (-32000) = "ServerError"
-  /\ class_of error_registry "B" 0 = "B" /\ class_of error_registry "B" 1 = "B" /\ class_of error_registry "B" (-32001) = "B".
+  /\ class_of error_registry "B" 0 = "HarnessZeroError" /\ class_of error_registry "B" 1 = "B" /\ class_of error_registry "B" (-32001) = "B".
 Proof. repeat split; reflexivity. Qed.
 
 (* the registry is keyed by the classes' own codes (typed except-clauses work) *)
